@@ -206,14 +206,16 @@ class Sim(object):
                     if tag:
                         st2 = (q2, v, (tag, v), (), min(k + 1, len(forced)))
                     else:
-                        nxt = since + ((i, v),) if since is not None and len(since) < self.KEEP else None
+                        # remember the lookahead read beyond the last accept; give up (None = unknown) before any accept,
+                        # beyond KEEP steps, and in the Sigma* region where it would enumerate arbitrary text
+                        nxt = since + ((i, v),) if (la is not None and since is not None and len(since) < self.KEEP and v != ("ANY",)) else None
                         st2 = (q2, v, la, nxt, min(k + 1, len(forced)))
                     if st2 not in parent:
                         parent[st2] = (st, i)
                         queue.append(st2)
         return outcomes, parent
 
-    KEEP = 6
+    KEEP = 4
 
     def chain(self, parent, st):
         """[(char, node before reading it, state after)] from the token start to st."""
